@@ -20,6 +20,7 @@ static uint8_t sent_ok[KN][NSEND];    // 1: send returned true, 2: returned fals
 static uint8_t got[KN][NSEND];        // times the value was received
 static int next_from[KN][KN];         // per receiver: next expected sequence number of each sender
 static int recv_fail[KN], recv_err[KN];
+static uint8_t role[KN];              // 1 = sender, 2 = receiver (set when the thread starts its operation)
 #define VAL(s, k) (100 + (s) * 10 + (k))
 
 static inline Timeout sym_timeout() { return nondet_bool() ? Timeout() : Timeout(100); }
@@ -39,6 +40,7 @@ static inline void account(int me, int v)
 }
 template<int ME_> static inline __attribute__((always_inline)) void sender(int n)
 {
+    role[ME_] = 1;
     for (int k = 0; k < NSEND; k++) {
         if (k >= n) break;
         Timeout t = sym_timeout();
@@ -52,6 +54,7 @@ template<int ME_> static inline __attribute__((always_inline)) void sender(int n
 }
 template<int ME_> static inline __attribute__((always_inline)) void receiver(int n)
 {
+    role[ME_] = 2;
     for (int k = 0; k < 2; k++) {
         if (k >= n) break;
         int v = -1; Timeout t = sym_timeout();
@@ -71,6 +74,15 @@ void thread_entry_1() { receiver<1>(2); }
 void thread_entry_0() { sender<0>(1); }
 void thread_entry_1() { receiver<1>(1); }
 void thread_entry_2() { receiver<2>(1); }
+#elif SCEN == 4    // 2 senders + 2 receivers
+void thread_entry_0() { sender<0>(1); }
+void thread_entry_1() { sender<1>(1); }
+void thread_entry_2() { receiver<2>(1); }
+void thread_entry_3() { receiver<3>(1); }
+#elif SCEN == 5    // 1 sender (2 values) + 2 receivers (1 receive each)
+void thread_entry_0() { sender<0>(2); }
+void thread_entry_1() { receiver<1>(1); }
+void thread_entry_2() { receiver<2>(1); }
 #elif SCEN == 3    // sender + receiver + closer
 void thread_entry_0() { sender<0>(1); }
 void thread_entry_1() { receiver<1>(1); }
@@ -83,7 +95,7 @@ NOINL void world_final(uint32_t all_done, uint32_t stuck)
         // whatever is still buffered counts as "in the channel" (it would be deleted with the channel)
         int buffered = 0;
 #if CAP > 0
-        for (int k = 0; k < CAP + 1; k++) { int v; if (CH.v.try_recv(v)) { account(KN - 1, v); buffered++; } }
+        for (int k = 0; k < CAP + 1; k++) { int* pv = nullptr; if (CH.v.m_queue->pop(pv)) { got[(*pv - 100) / 10][(*pv - 100) % 10]++; buffered++; } }
 #endif
         for (int s = 0; s < KN; s++) for (int k = 0; k < NSEND; k++) {
             if (sent_ok[s][k] == 1) CHECK(got[s][k] == 1, "every value whose send returned true is delivered exactly once");
@@ -94,7 +106,16 @@ NOINL void world_final(uint32_t all_done, uint32_t stuck)
         if (buffered) WITNESS("a value was still buffered at the end");
     }
     if (stuck) {
-        // nobody can run: legitimate only if no matching partner exists for any blocked party
+        // nobody can run and no deadline can expire: legitimate only if no matching partner / item / slot exists for a blocked party
+        bool sblk = false, rblk = false;
+        for (int i = 0; i < KN; i++) if (K_is_blocked(i)) { if (role[i] == 1) sblk = true; if (role[i] == 2) rblk = true; }
+        bool closed = CH.v.is_closed();
+#if CAP == 0
+        CHECK(closed || !(sblk && rblk), "a blocked sender and a blocked receiver never coexist for ever: each is released when its partner exists");
+#else
+        CHECK(closed || !(rblk && CH.v.size() > 0), "no receiver stays blocked while an item is buffered");
+        CHECK(closed || !(sblk && CH.v.size() < CAP), "no sender stays blocked while a slot is free");
+#endif
         WITNESS("a party can stay blocked when no partner ever arrives");
     }
 }
